@@ -88,7 +88,11 @@ def gen_cases(ctx):
                            "id": rng.getrandbits(16), "pipe": rng.randrange(6)})
         # some nodes had their multicast level re-assigned (to another level than their own)
         mlv = (lvl + 1 + i % 4) % 5 if role in ("router", "net", "net_relay", "meshnm_connected") and (i // 7) % 3 == 0 else None
-        yield {"part": "frames", "role": role, "level": lvl, "frames": frames, "mlevel": mlv,
+        # ... and was then given another address (another level); fragmentation switched off on some
+        readdr = (lvl + 2 + i % 3) % 5 if mlv is not None and i % 2 == 0 and role in ("router", "net", "net_relay") else None
+        frag_off = (i // 3) % 4 == 1 and role in ("net", "net_relay", "meshnm_connected", "master0", "master3")
+        yield {"part": "frames", "role": role, "level": lvl, "frames": frames, "mlevel": mlv, "readdr_level": readdr,
+               "frag_off": frag_off,
                "seed": rng.getrandbits(30), "phantom": rng.random() < 0.85,
                "burst": rng.choice([1, 1, 2, 3])}
     yield from gen_followed_by_invalid(ctx)
@@ -106,6 +110,9 @@ def gen_cases(ctx):
             for k in range(0, len(frames), 96):
                 yield {"part": "frames", "role": role, "level": 0 if role == "master3" else 2,
                        "frames": frames[k:k + 96], "seed": k, "phantom": True, "burst": 1}
+                if (k // 96) % 4 == 2 and role != "router":
+                    yield {"part": "frames", "role": role, "level": 0 if role == "master3" else 2, "frag_off": True,
+                           "frames": frames[k:k + 96], "seed": k, "phantom": True, "burst": 1}
                 if role != "master3" and (k // 96) % 4 == 1:
                     yield {"part": "frames", "role": role, "level": 3, "mlevel": (k // 96) % 3,
                            "frames": frames[k:k + 96], "seed": k, "phantom": True, "burst": 1}
@@ -280,6 +287,12 @@ def run_case(ctx, case):
         if o is not None and case.get("mlevel") is not None:
             o.multicast_level = case["mlevel"]
             ctx.count("nodes_with_multicast_level_reassigned")
+            if case.get("readdr_level") is not None:
+                o.node_address = ADDR_BY_LEVEL[case["readdr_level"]]
+                ctx.count("nodes_readdressed_after_a_level_override")
+        if o is not None and case.get("frag_off"):
+            o.fragmentation = False
+            ctx.count("nodes_with_fragmentation_off")
         if o is None:
             return
         _frames(ctx, case, rig, radio, o)
